@@ -75,7 +75,9 @@ def base_env(extra=None):
     cache_root = os.path.join(VERIF, ".cache", "numba")
     env["NUMBA_CACHE_DIR"] = os.path.join(cache_root, th + suffix)
     env["PYTHONHASHSEED"] = "0"
-    env["PYTHONPATH"] = VERIF + os.pathsep + os.path.join(VERIF, ".deps")
+    # the repository's src first: identical to the editable install for /repo, and lets VERIF_REPO point the
+    # checks at a scratch worktree (used only when developing the monitors; registered commands use /repo)
+    env["PYTHONPATH"] = os.pathsep.join([core.REPO_SRC, VERIF, os.path.join(VERIF, ".deps")])
     env["PYTHONDONTWRITEBYTECODE"] = "1"
     env["OSU_VERIF"] = "1"
     env.setdefault("NUMBA_NUM_THREADS", "4")
